@@ -32,3 +32,111 @@ Definition print_range (r : range) : str :=
   | Index i => print_Z i
   | Range a b inc => print_optz a ++ dots inc ++ print_optz b
   end.
+
+(* ---- the canonical printer of the documented syntax ------------------------------
+   One spelling per operation, as the documentation writes it: keyword, then the
+   arguments separated by ':', text arguments escaped with [esc].  Operations that
+   take a regular expression (replace, filter, filter_not, regex_extract) are outside
+   this printer: their argument is raw text with its own lexical rules. *)
+Definition print_tdir (d : tdir) : str := match d with TLeft => s_left | TRight => s_right | TBoth => s_both end.
+Definition print_pdir (d : pdir) : str := match d with PLeft => s_left | PRight => s_right | PBoth => s_both end.
+
+Definition kw_split : str := [115; 112; 108; 105; 116].
+Definition kw_join : str := [106; 111; 105; 110].
+Definition kw_upper : str := [117; 112; 112; 101; 114].
+Definition kw_lower : str := [108; 111; 119; 101; 114].
+Definition kw_trim : str := [116; 114; 105; 109].
+Definition kw_substring : str := [115; 117; 98; 115; 116; 114; 105; 110; 103].
+Definition kw_append : str := [97; 112; 112; 101; 110; 100].
+Definition kw_prepend : str := [112; 114; 101; 112; 101; 110; 100].
+Definition kw_surround : str := [115; 117; 114; 114; 111; 117; 110; 100].
+Definition kw_strip_ansi : str := [115; 116; 114; 105; 112; 95; 97; 110; 115; 105].
+Definition kw_slice : str := [115; 108; 105; 99; 101].
+Definition kw_map : str := [109; 97; 112].
+Definition kw_sort : str := [115; 111; 114; 116].
+Definition kw_reverse : str := [114; 101; 118; 101; 114; 115; 101].
+Definition kw_unique : str := [117; 110; 105; 113; 117; 101].
+Definition kw_pad : str := [112; 97; 100].
+
+(* an operation that is not `map`, as written at top level and inside map:{...} *)
+Definition print_simple (o : op) : str :=
+  match o with
+  | Split sep r => kw_split ++ 58 :: esc sep ++ 58 :: print_range r
+  | Join sep => kw_join ++ 58 :: esc sep
+  | Upper => kw_upper
+  | Lower => kw_lower
+  | Trim [] d => kw_trim ++ 58 :: print_tdir d
+  | Trim chars d => kw_trim ++ 58 :: esc chars ++ 58 :: print_tdir d
+  | Substring r => kw_substring ++ 58 :: print_range r
+  | Append s => kw_append ++ 58 :: esc s
+  | Prepend s => kw_prepend ++ 58 :: esc s
+  | Surround s => kw_surround ++ 58 :: esc s
+  | StripAnsi => kw_strip_ansi
+  | Slice r => kw_slice ++ 58 :: print_range r
+  | Sort Asc => kw_sort
+  | Sort Desc => kw_sort ++ 58 :: s_desc
+  | Reverse => kw_reverse
+  | Unique => kw_unique
+  | Pad w c d => kw_pad ++ 58 :: print_N w ++ 58 :: esc [c] ++ 58 :: print_pdir d
+  | Replace _ _ _ | Filter _ | FilterNot _ | RegexExtract _ _ | Map _ => []
+  end.
+
+Fixpoint print_pipe (p : op -> str) (ops : list op) : str :=
+  match ops with
+  | [] => []
+  | [o] => p o
+  | o :: rest => p o ++ 124 :: print_pipe p rest
+  end.
+
+Definition print_op (o : op) : str :=
+  match o with
+  | Map body => kw_map ++ 58 :: 123 :: print_pipe print_simple body ++ [125]
+  | _ => print_simple o
+  end.
+
+(* a single-block template: "{" ops "}" *)
+Definition print_block (ops : list op) : str := 123 :: print_pipe print_op ops ++ [125].
+
+(* the operations this printer covers, with every number inside the machine range *)
+Definition optz_ok (o : option Z) : bool := match o with Some z => in_isize z | None => true end.
+Definition range_ok (r : range) : bool :=
+  match r with Index i => in_isize i | Range a b _ => (optz_ok a && optz_ok b)%bool end.
+Definition simple_ok (o : op) : bool :=
+  match o with
+  | Split _ r | Substring r | Slice r => range_ok r
+  | Pad w _ _ => N.leb w usize_max
+  | Join _ | Upper | Lower | Trim _ _ | Append _ | Prepend _ | Surround _ | StripAnsi | Sort _ | Reverse | Unique => true
+  | Replace _ _ _ | Filter _ | FilterNot _ | RegexExtract _ _ | Map _ => false
+  end.
+Definition printable (o : op) : bool :=
+  match o with
+  | Map body => (match body with [] => false | _ => true end && forallb simple_ok body)%bool
+  | _ => simple_ok o
+  end.
+
+(* ---- every documented spelling ------------------------------------------------------
+   [spells_simple o t]: the text t is a documented way of writing the operation o,
+   at top level and inside map:{...} alike. *)
+Definition kw_quote : str := [113; 117; 111; 116; 101].
+Definition s_asc : str := [97; 115; 99].
+Inductive spells_simple : op -> str -> Prop :=
+| sp_canon o : simple_ok o = true -> spells_simple o (print_simple o)
+| sp_quote s : spells_simple (Surround s) (kw_quote ++ 58 :: esc s)
+| sp_trim_bare : spells_simple (Trim [] TBoth) kw_trim
+| sp_trim_chars s : is_direction_word (esc s) = false -> spells_simple (Trim s TBoth) (kw_trim ++ 58 :: esc s)
+| sp_sort_asc : spells_simple (Sort Asc) (kw_sort ++ 58 :: s_asc)
+| sp_pad_width w : N.leb w usize_max = true -> spells_simple (Pad w 32 PRight) (kw_pad ++ 58 :: print_N w)
+| sp_pad_char w c : N.leb w usize_max = true -> spells_simple (Pad w c PRight) (kw_pad ++ 58 :: print_N w ++ 58 :: esc [c]).
+
+(* "a|b|c" *)
+Definition pipe_tail_text (ts : list str) : str := flat_map (fun t => 124 :: t) ts.
+Definition pipe_text (ts : list str) : str :=
+  match ts with [] => [] | t :: rest => t ++ pipe_tail_text rest end.
+
+(* at top level there are two more: the shorthand for a split on spaces, and map *)
+Inductive spells : op -> str -> Prop :=
+| sp_simple o t : spells_simple o t -> spells o t
+| sp_shorthand r : range_ok r = true -> spells (Split space_sep r) (print_range r)
+| sp_map (items : list (op * str)) : items <> [] ->
+    Forall (fun it => spells_simple (fst it) (snd it)) items ->
+    spells (Map (map fst items)) (kw_map ++ 58 :: 123 :: pipe_text (map snd items) ++ [125]).
